@@ -175,3 +175,46 @@ def rule_tb_char(repo, res):
         if not ok and all(len(x) == 1 for x in g.format_effectors):
             res.add(Finding("TB-CHAR", f"grammar.{c}", "format_effectors", f"{c}.format_effectors is {sorted(fe)!r}, not LF, CR, VT, FF"))
     res.floor("single-character tables", n, 40)
+
+
+def rule_none_guard(repo, res):
+    """NONE-GUARD: a grammar attribute that some grammar class sets to None ("this dialect has no such pattern":
+    the leap-second regexes of ODL) is tested for None in every function that calls a method on it
+    (`grammar.X.fullmatch(..)`).  The decoders are combined freely with grammars -- a Token built without a decoder gets
+    a plain PVLDecoder on whatever grammar the lexer runs with -- so an unguarded use raises AttributeError on None, an
+    exception outside the documented LexerError / ParseError, from the middle of the lexer."""
+    none_names = {}
+    for c in tables.grammar_classes(repo):
+        for name, val in repo.classes[c].aliases.items():
+            if isinstance(val, ast.Constant) and val.value is None:
+                none_names.setdefault(name, c)
+    n = 0
+    for mname in ("decoder", "token", "lexer", "parser", "encoder"):
+        if mname not in repo.modules:
+            continue
+        mod = repo.module(mname)
+        fns = [(f"{mname}.{k}", v) for k, v in mod.functions.items()]
+        for cname in mod.classes:
+            if cname in repo.classes:
+                fns += [(f"{cname}.{k}", v) for k, v in repo.classes[cname].methods.items()]
+        for label, fn in fns:
+            for call in [x for x in ast.walk(fn) if isinstance(x, ast.Call) and isinstance(x.func, ast.Attribute)
+                         and isinstance(x.func.value, ast.Attribute) and x.func.value.attr in none_names
+                         and "grammar" in norm(x.func.value.value) or
+                         (isinstance(x, ast.Call) and isinstance(x.func, ast.Attribute) and isinstance(x.func.value, ast.Attribute)
+                          and x.func.value.attr in none_names and norm(x.func.value.value) in ("g", "self.grammar", "grammar"))]:
+                name = call.func.value.attr
+                n += 1
+                guarded = any(isinstance(c_, ast.Compare) and any(isinstance(o, (ast.Is, ast.IsNot)) for o in c_.ops)
+                              and any(isinstance(y, ast.Attribute) and y.attr == name for y in ast.walk(c_))
+                              and any(isinstance(y, ast.Constant) and y.value is None for y in ast.walk(c_)) for c_ in ast.walk(fn)) \
+                    or any(isinstance(t, ast.Try) and any(h.type is None or "AttributeError" in norm(h.type) for h in t.handlers)
+                           and any(y is call for b in t.body for y in ast.walk(b)) for t in ast.walk(fn))
+                res.oblige("NONE-GUARD", f"{label}: `{norm(call, 50)}` -- {name} is None in {none_names[name]}: tested for None in this function", ok=guarded)
+                if not guarded:
+                    res.add(Finding("NONE-GUARD", label, f"`{norm(call.func, 50)}` without a None test",
+                                    f"{label} calls `{norm(call, 60)}` although {none_names[name]} sets `{name}` to None and nothing in the function "
+                                    "tests it: with that grammar the call raises AttributeError ('NoneType' object has no attribute ...), "
+                                    "which is neither LexerError nor ParseError and escapes the loader", where=f"pvl/{mname}.py:{call.lineno}"))
+    res.oblige("NONE-GUARD", f"{len(none_names)} grammar attribute(s) that a dialect sets to None; {n} method calls on them examined", ok=True, nontrivial=False)
+    res.floor("grammar attributes set to None by some dialect", len(none_names), 1)
